@@ -47,6 +47,8 @@ func c10States() []c10Job {
 	out = append(out, c10Job{Name: "two servers and reports", Init: append([]string{"sauth:S1:0:1:G1:9", "sauth:S2:1:4:G1:9"}, edge...)})
 	out = append(out, c10Job{Name: "banned server followed by a live one (same location length)", Init: []string{"sauth:S1:0:1:G1:9", "sauth:S2:0:4:G1:9", "sauth:S1:1:1:G1:9"}})
 	out = append(out, c10Job{Name: "banned server followed by live ones with shorter and longer locations", Init: []string{"sauth:S1:0:1:G1:40", "sauth:S2:0:4:G1:9", "sauth:S3:0:7:G1:60", "sauth:S1:1:1:G1:40"}})
+	out = append(out, c10Job{Name: "server listed, requests answered, then banned (anything remembered from the first answers is stale)", Init: []string{"sauth:S1:0:1:G1:9", "sauth:S2:0:4:G1:9", "touch", "sauth:S1:1:1:G1:9", "touch", "sauth:S3:0:7:G1:9"}})
+	out = append(out, c10Job{Name: "requests answered before and after a migration order", Init: []string{"sauth:S1:0:1:G1:9", "touch", "migr:kDev:G3:G1:G3", "touch"}})
 	out = append(out, c10Job{Name: "migration with one new server", Init: []string{"migr:kDev:G3:G1:G3"}})
 	out = append(out, c10Job{Name: "migration with no new server", Init: []string{"migr0:kDev:G3:G1"}})
 	out = append(out, c10Job{Name: "migration for another device only", Init: []string{"migr:kOther:G3:G1:G3"}})
